@@ -1,5 +1,6 @@
 import TD.Common.Proto
 import TD.C20.Model
+import TD.C20.LisTest
 open TD TD.C20 TD.Proto
 
 def lisOf : String → Option LisRes
@@ -19,6 +20,10 @@ def step (line : String) : String :=
     match unhex h, lisOf l with
     | some bs, some lr => showCode (identify (fun _ => lr) (fun _ => d == "1") bs)
     | _, _ => "bad-op"
+  | ["lis", h] =>
+    match unhex h with
+    | some bs => if lisTestInScope bs then showCode (lisTest bs).code else "?"
+    | none => "bad-op"
   | ["sub", h] =>
     match unhex h with
     | some bs =>
